@@ -66,6 +66,8 @@ pub fn run(ctx: &Ctx) -> i32 {
         for mon in ["1", "2", "3"] { b2.push((format!("I{ty}{dest}{pri}{mon}"), true, "input+monitoring".into())); for obs in ["003", "020"] { b2.push((format!("I{ty}{dest}{pri}{mon}{obs}"), true, "input+monitoring+obsolescence".into())); } }
     } } }
     for ty in ["103", "910"] { for pri in ["", "N", "U", "S"] { for t in ["0000", "1200", "2359"] { b2.push((format!("O{ty}{t}240719BANKBEBBAXXX0000123456240719{t}{pri}"), true, format!("output{}", if pri.is_empty() { "-no-priority" } else { "" }))); } } }
+    // input date, MIR date, output date and the two times all different (delivered after midnight)
+    for pri in ["", "N"] { b2.push((format!("O1992358251028BANKBEBBAXXX00001234562510290003{pri}"), true, "output-distinct-dates".into())); b2.push((format!("O9401159991231DEUTDEFFA1239999999999000101{}{pri}", "0001"), true, "output-distinct-dates".into())); }
     // near misses
     let in_base = "I103BANKDEFFXXXXN2020"; let out_base = "O1031200240719BANKBEBBAXXX00001234562407191201N";
     for l in 0..in_base.len() { let s = &in_base[..l]; let wf = l == 17 || l == 18 || l == 21; if !wf { b2.push((s.to_string(), false, format!("input-len={l}"))); } }
